@@ -15,6 +15,15 @@ def replay(model, obligation):
     ma = model.get('max_attempts')
     if model.get('max_attempts_is_none'):
         ma = None
+    if '__init__' in obligation:
+        fails = []
+        for cls, args in ((policies.ConstantReconnectionPolicy, (2.0,)), (policies.ExponentialReconnectionPolicy, (1.0, 8.0))):
+            for given in (None, 0, 1, 7, ma if isinstance(ma, int) and ma >= 0 else 3):
+                p = cls(*args, max_attempts=given)
+                n = len(list(islice(p.new_schedule(), 0, 50)))
+                if p.max_attempts != given or type(p.max_attempts) is not type(given) or n != (50 if given is None else min(given, 50)):
+                    fails.append('%s(max_attempts=%r) stores %r and schedules %d attempts' % (cls.__name__, given, p.max_attempts, n))
+        return {'reproduced': bool(fails), 'detail': '; '.join(fails[:3]) or 'the constructors store max_attempts as given'}
     if 'Constant' in obligation:
         d = _num(model.get('delay', 1))
         p = policies.ConstantReconnectionPolicy(d, ma)
